@@ -277,6 +277,21 @@ theorem environ_never_written :
     environReadSites = [("elementpath.xpath30._xpath30_functions", "evaluate__available_env_vars"),
       ("elementpath.xpath30._xpath30_functions", "evaluate__environment_variable")] := by decide
 
+/-- **Every XML parse site is guarded.**  Of all calls in the package that hand text to an XML
+parser (`etree.XML`, `fromstring`, `parse`, `iterparse`, `pulldom.parse`, … — generated table
+`xmlParseSites`), none is `unguarded`: each one either parses `defuse_xml(..)` itself, or is
+preceded by a `defuse_xml` call that no backend test / loop / `try` separates from it (only a
+test of the `defuse_xml` option may), or is the explicit opt-out branch of that option, or
+parses text placed inside an element, or is the scan of `defuse_xml` itself.  The functions that
+parse XML at all are exactly `defuse_xml`, `fn:analyze-string`'s result builder, `fn:parse-xml`
+and `fn:parse-xml-fragment` (`fn:doc` / `fn:collection` only look up documents the caller parsed). -/
+theorem all_parse_sites_guarded :
+    xmlParseSites.all (fun s => s.2.2.2 != "unguarded") = true ∧
+    3 ≤ (xmlParseSites.filter (fun s => s.2.2.2 == "wrapped" || s.2.2.2 == "dominated")).length ∧
+    (xmlParseSites.map (·.2.1)).eraseDups =
+      ["defuse_xml", "evaluate__analyze_string", "evaluate__parse_xml",
+       "evaluate__parse_xml_fragment"] := by decide
+
 /-- module-level state that is written after import time and has been reviewed: memo caches of
 pure functions (`lru_cache`), lazily loaded Unicode tables (`__subsets_cache`, `__unicode_data`,
 also replaced by the public `install_unicode_data`), lazily built validator schemas, and the
